@@ -65,6 +65,7 @@ package bus
 //@   modifies everything
 //@   ensures !s.RWMutex.lockw && s.RWMutex.lockr == 0
 //@   ensures[C16] !at_unlock(has(s.boxes, m.Header.Object)) ==> from.errsent == old(from.errsent) + 1
+//@   ensures[C16] at_unlock(has(s.boxes, m.Header.Object)) ==> from.errsent == old(from.errsent) && err == nil
 
 //@ func (s *serviceImpl) Terminate() (err error)
 //@   tags C16
